@@ -104,6 +104,9 @@ def cases(tier):
                 for L in range(1, N):
                     yield Case("og:N=%d:%s:L=%d" % (N, name, L),
                                {"kind": "og", "N": N, "ladder": name, "tier": tier, "L": L}, N >= 3 and L >= 2)
+    # realistic many-layer profiles (exponentially decaying strength, with and without a jet-stream bump)
+    for scale_h in (1500., 2500., 4000.):
+        yield Case("gctm:exp:H=%g" % scale_h, {"kind": "gctm_exp", "H": scale_h, "tier": tier}, True)
     for name in sorted(FIXED):
         N = len(FIXED[name][0])
         for L in range(1, min(N, 5 if tier == "quick" else 6)):
@@ -116,6 +119,8 @@ def evaluate(p):
         return _equivalent_layers(p)
     if p["kind"] == "gctm":
         return _gctm(p)
+    if p["kind"] == "gctm_exp":
+        return _gctm_exp(p)
     return _optimal_grouping(p)
 
 
@@ -280,4 +285,39 @@ def _optimal_grouping(p):
                     o.outcome([pi, R, round(cost / scale, 9)])
     o.stat("states", max(states, 1))
     o.stat("traces_validated_against_impl", o.stats.get("lib_calls", 0))
+    return o
+
+
+def _gctm_exp(p):
+    """all three methods on 100-layer profiles whose strength decays exponentially with height (the top slabs are
+    orders of magnitude weaker than the ground): L layers, non-negative strengths, totals, moments"""
+    from aotools.turbulence import profile_compression as pc
+    o = Out()
+    h = numpy.linspace(0., 20000., 100)
+    for bump in (0.0, 0.3):
+        cn2 = 1e-13 * numpy.exp(-h / p["H"]) + bump * 1e-14 * numpy.exp(-((h - 11000.) / 1200.) ** 2)
+        for L in (2, 3, 5, 6, 8):
+            sub = "bump=%g:L=%d" % (bump, L)
+            hL, cL = pc.GCTM(h.copy(), cn2.copy(), L)
+            hL, cL = numpy.asarray(hL, float), numpy.asarray(cL, float)
+            o.stat("lib_calls", 3)
+            o.check("gctm_exactly_L_layers", hL.shape == (L,) and cL.shape == (L,), sub=sub)
+            o.check("gctm_strengths_non_negative", bool(numpy.all(cL >= 0)) and bool(numpy.all(hL >= 0)), sub=sub,
+                    detail={"cn2": cL, "h": hL})
+            he, ce = pc.equivalent_layers(h.copy(), cn2.copy(), L)
+            he, ce = numpy.asarray(he, float), numpy.asarray(ce, float)
+            tot = cn2.sum()
+            o.check("el_exactly_L_layers", he.shape == (L,) and ce.shape == (L,), sub=sub)
+            o.check("el_strengths_non_negative", bool(numpy.all(ce >= 0)), sub=sub)
+            o.close("el_total_cn2_conserved", abs(ce.sum() - tot) / tot, 1e-12, sub=sub)
+            m_in = float((cn2 * h ** (5. / 3)).sum())
+            o.close("el_height_moment_conserved", abs(float((ce * he ** (5. / 3)).sum()) - m_in) / m_in, 1e-10, sub=sub)
+            numpy.random.seed(L)
+            ho, co = pc.optimal_grouping(1, L, h.copy(), cn2.copy())
+            ho, co = numpy.asarray(ho, float), numpy.asarray(co, float)
+            o.check("og_exactly_L_layers", ho.shape == (L,) and co.shape == (L,), sub=sub)
+            o.close("og_total_cn2_conserved", abs(co.sum() - tot) / tot, 1e-12, sub=sub)
+            o.check("og_strengths_non_negative", bool(numpy.all(co >= 0)), sub=sub)
+            o.check("og_heights_are_input_heights", all(any(x == y for y in h) for x in ho), sub=sub)
+            o.check("og_heights_increasing", bool(numpy.all(numpy.diff(ho) > 0)) if L > 1 else True, sub=sub)
     return o
